@@ -11,12 +11,13 @@ TranslateError.  What is NOT translated but assumed, per solver (CONFIG):
     `gamma_primal is not None` -> False, `random` -> False, ...): the listed
     branch is taken;
   * input validation (`if ...: raise ...`) is skipped;
-  * for the solvers over LISTS of operators (adupdates, adupdates_simple,
-    kaczmarz, osmlem) the preamble (list/dict comprehensions creating duals,
-    tmp_rans, proxs, sensitivities) is not translated: its source text is
-    pinned by a hash (any edit -> TranslateError), and the inner `for` loops are
-    emitted as per-index programs over indexed names such as "duals[j]",
-    "L[j]", "tmp_rans[L[j].range]" plus the skeleton of the outer loop body.
+  * the solvers over LISTS of operators (adupdates, adupdates_simple,
+    kaczmarz, osmlem) are emitted twice: (old) per-index programs of the inner
+    `for` loops over indexed names such as "duals[j]" plus the skeleton of the
+    outer loop body (Gen/Solvers.v), and (new, translate_l) preamble AND main
+    loop in the list language of coq/C11/SyntaxL.v (Gen/SolversL.v): list /
+    dict comprehensions that create objects, operator-list aliases (proxs),
+    structured references RVar / RIdx / RKey.
 """
 import ast
 import hashlib
@@ -672,10 +673,8 @@ def translate_solver(name, cfg, repo):
     fn = find_fn(repo, cfg, cfg.get('fn', name))
     ctx = Ctx(name, cfg)
     if 'pre_hash' in cfg:
-        got = pre_digest(fn)
-        if got != cfg['pre_hash']:
-            raise C.TranslateError('%s: the (untranslated) preamble changed: digest %s, pinned %s -- review it and '
-                                   'update CONFIG' % (name, got, cfg['pre_hash']))
+        # list solvers: the preamble is translated by translate_list_solver (Gen/SolversL.v); here only the
+        # per-index programs of the inner loops are emitted (older theorems are stated about them)
         loops = [s for s in fn.body if isinstance(s, ast.For)]
         if len(loops) != 1 or fn.body[-1] is not loops[0]:
             raise C.TranslateError('%s: expected exactly one main loop as the last statement' % name)
